@@ -501,12 +501,21 @@ def check(repo: Repo, run: Run) -> None:
     run.ob("K4", MOD, f"TracesParser.{end_m}", "window popped by event.eventid", okp,
            "" if okp else "END does not pop exactly state[tid][event.eventid]: the window stays open (later ENDs re-emit it) or "
                           "another window is closed", line=fn.lineno)
+    own_after = []
     if okl and okp:
-        run.ob("K4", MOD, f"TracesParser.{end_m}", "append precedes pop", loops[0][0].body_seq[1] < pops[0].seq,
+        first_then = loops[0][0].body_seq[1] < pops[0].seq
+        if not first_then and pops[0].kind == "mut-call":
+            # the other order: the window is taken out first, the END appended to it by itself, then to the windows left
+            taken = T("call", (T("attr", (pops[0].base, "pop")), (eid,), ()))
+            own_after = [e for e in rec.effects if e.kind == "mut-call" and e.key == "append" and e.args == (ev,) and not e.loops
+                         and e.seq > pops[0].seq and (e.base == taken or e.path == taken) and e.pc == pops[0].pc]
+        run.ob("K4", MOD, f"TracesParser.{end_m}", "append precedes pop", first_then or len(own_after) == 1,
                "the window is popped before the END record is appended: the trace does not end with its END", line=fn.lineno)
     if okp:
         popped = T("call", (T("attr", (pops[0].base, "pop")), (eid,), ())) if pops[0].kind == "mut-call" else \
             T("sub", (pops[0].base, eid))
+        if len(own_after) == 1:
+            popped = T("mut", (popped, "append", (ev,)))
         pel = M["parse_event_list"]
         want = interp.run(tp.module, pel, {"self": SELF, pel.args.args[1].arg: popped}, self_cls=tp).return_term()
         live = [r for r in rec.returns if r.kind == "return" and r.value != const(None)]
